@@ -223,6 +223,8 @@ def check_memo_method(ctx: Ctx, mname: str, info: dict) -> None:
     for n in cfg.nodes(lambda n: cfg.kind[n] == "test"):
         test = cfg.ast[n].test
         cp = compare_parts(test)
+        if cp and isinstance(cp[0], ast.Constant) and isinstance(cp[2], ast.Name):
+            cp = (cp[2], cp[1], cp[0])  # ``None is x``
         if cp and isinstance(cp[0], ast.Name) and cp[0].id in look_vars and const_value(cp[2], 0) is None and isinstance(cp[2], ast.Constant):
             if cp[1] is ast.Is:
                 none_tests.append((n, True))
@@ -564,3 +566,43 @@ def run(ctx: Ctx) -> None:
     ctx.floor("1.4-store", 4)
     ctx.floor("1.5-linear-part", 2)
     ctx.floor("1.5-forwarding", 2)
+
+
+# ---------------------------------------------------------------------------
+# seeded faults (applied in memory by the thorough tier) and refactoring twins
+
+_EP = "algos/evaluation_problem.py"
+WITNESSES = [
+    {"name": "drop-normalize_grad", "file": _EP, "old": "jac_seq = (ds.unnormalize_vect, function.jac, *args, ds.normalize_grad)", "new": "jac_seq = (ds.unnormalize_vect, function.jac, *args)", "expect": "1.1"},
+    {"name": "swap-unnormalize-round", "file": _EP, "old": "func_seq = (ds.unnormalize_vect, ds.round_vect, function.func)", "new": "func_seq = (ds.round_vect, ds.unnormalize_vect, function.func)", "expect": "1.1"},
+    {"name": "expects-false-in-normalising-branch", "file": _EP, "old": "        elif is_function_input_normalized:\n            expects_normalized_inputs = True", "new": "        elif is_function_input_normalized:\n            expects_normalized_inputs = False", "expect": "1.1"},
+    {"name": "no-round-in-round-branch", "file": _EP, "old": "func_seq = (ds.round_vect, function.func)", "new": "func_seq = (function.func,)", "expect": "1.1"},
+    {"name": "swap-seq-wiring", "file": _EP, "old": "            function,\n            func_seq,\n            jac_seq,\n", "new": "            function,\n            jac_seq,\n            func_seq,\n", "expect": "1.1"},
+    {"name": "hash-normalised-point", "file": PF, "old": "        hashed_xu = database.get_hashable_ndarray(xu_vect)\n        output_value =", "new": "        hashed_xu = database.get_hashable_ndarray(xn_vect)\n        output_value =", "expect": "1.2"},
+    {"name": "store-normalised-jacobian", "file": PF, "old": "database.store(hashed_xu, {self._gradient_name: jac_u})", "new": "database.store(hashed_xu, {self._gradient_name: jac_n})", "expect": "1.2"},
+    {"name": "return-physical-jacobian", "file": PF, "old": "        return jac_n.real", "new": "        return jac_u.real", "expect": "1.2"},
+    {"name": "no-normalize-on-hit", "file": PF, "old": "            jac_n = self._normalize_grad(jac_u)", "new": "            jac_n = jac_u", "expect": "1.2"},
+    {"name": "jacobian-under-output-name", "file": PF, "old": "        name = self._gradient_name\n        self.check_function_output_includes_nan(input_value)", "new": "        name = self.name\n        self.check_function_output_includes_nan(input_value)", "expect": "1.2"},
+    {"name": "compute-with-physical-point-in-norm-variant", "file": PF, "old": "output_value = self._compute_output(xn_vect)", "new": "output_value = self._compute_output(xu_vect)", "expect": "1.2"},
+    {"name": "delete-is-none-test", "file": PF, "old": "        output_value = database.get_function_value(name, hashed_xu)\n        if output_value is None:", "new": "        output_value = database.get_function_value(name, hashed_xu)\n        if True:", "expect": "1.3"},
+    {"name": "delete-store", "file": PF, "old": "            database.store(hashed_xu, {name: output_value})\n", "new": "            pass\n", "expect": "1."},
+    {"name": "store-jacobian-unconditionally-skipped", "file": PF, "old": "            if self.__store_jacobian:\n                database.store(hashed_xu, {name: jacobian})", "new": "            if self.__store_jacobian and self.stop_if_nan:\n                database.store(hashed_xu, {name: jacobian})", "expect": "1.4"},
+    {"name": "key-not-copied", "file": DB, "old": "self.get_hashable_ndarray(x_vect, True)", "new": "self.get_hashable_ndarray(x_vect, False)", "expect": "1.6"},
+    {"name": "wrapper-never-copies", "file": HN, "old": "self.__array = np_array(array) if copy else array", "new": "self.__array = array", "expect": "1.6"},
+    {"name": "hash-only-equality", "file": HN, "old": "        return array_equal(self.__array, other.__array)", "new": "        return True", "expect": "1.6"},
+    {"name": "minus_lb-default-in-normalize_grad", "file": DS, "old": "return self.unnormalize_vect(g_vect, minus_lb=False, no_check=True)", "new": "return self.unnormalize_vect(g_vect, no_check=True)", "expect": "1.5"},
+    {"name": "unnormalize_grad-uses-unnormalize", "file": DS, "old": "        return self.normalize_vect(g_vect, minus_lb=False)", "new": "        return self.unnormalize_vect(g_vect, minus_lb=False)", "expect": "1.5"},
+    {"name": "parameter-space-drops-minus_lb", "file": "algos/parameter_space.py", "old": "return super().normalize_vect(x_vect, minus_lb=minus_lb, out=out)", "new": "return super().normalize_vect(x_vect, out=out)", "expect": "1.5"},
+    {"name": "foreign-writer-of-data", "file": DB, "old": "    def add_store_listener(self, function: ListenerType) -> bool:", "new": "    def forget(self, x) -> None:\n        self.__data.pop(x, None)\n\n    def add_store_listener(self, function: ListenerType) -> bool:", "expect": "1.7"},
+    {"name": "linear-factor-reversed", "file": LF, "old": "input_space.get_upper_bounds() - input_space.get_lower_bounds(),", "new": "input_space.get_lower_bounds() - input_space.get_upper_bounds(),", "expect": "1.8"},
+    {"name": "linear-shift-upper", "file": LF, "old": "shift = where(norm_policies, input_space.get_lower_bounds(), 0.0)", "new": "shift = where(norm_policies, input_space.get_upper_bounds(), 0.0)", "expect": "1.8"},
+    {"name": "linear-coefficients-divided", "file": LF, "old": "coefficients = multiply(self.coefficients, norm_factors)", "new": "coefficients = self.coefficients / norm_factors", "expect": "1.8"},
+    {"name": "linear-constant-at-zero", "file": LF, "old": "value_at_zero = self.evaluate(shift)", "new": "value_at_zero = self.evaluate(0 * shift)", "expect": "1.8"},
+]
+TWINS = [
+    {"name": "rename-local-hashed_xu", "file": PF, "old": "hashed_xu", "new": "key_u", "count": 0},
+    {"name": "mirror-is-none", "file": PF, "old": "        if jac_u is None:", "new": "        if None is jac_u:"},
+    {"name": "alias-name-local", "file": PF, "old": "        output_value = database.get_function_value(self.name, hashed_xu)", "new": "        fname = self.name\n        output_value = database.get_function_value(fname, hashed_xu)"},
+    {"name": "ds-alias-removed", "file": _EP, "old": "func_seq = (ds.unnormalize_vect, function.func)", "new": "func_seq = (self.design_space.unnormalize_vect, function.func)"},
+    {"name": "copy-kwarg", "file": DB, "old": "self.get_hashable_ndarray(x_vect, True)", "new": "self.get_hashable_ndarray(x_vect, copy=True)"},
+]
